@@ -50,6 +50,12 @@ def gen_graph_hist(rng, N, p_bad=0.25, maxops=12):
                 ops.append(["valence", rref(rng, n, p_bad)])
             else:
                 ops.append(["remove", rref(rng, n, p_bad / 2)])
+        if rng.random() < 0.12:
+            # multiplicities beyond double precision (and not powers of two): edge totals that a
+            # float cannot hold exactly
+            big = rng.choice([2 ** 53 + 1, 2 ** 63 + 2, 10 ** 30 + 7, 2 ** 64 - 1, 3 * 2 ** 52 + 1])
+            edges = [[a, b, (k * big + rng.choice([0, 1])) if k > 0 else k] for a, b, k in edges]
+            ops = [[o[0], o[1], o[2], o[3] * big + 1] if o[0] == "add" and o[3] > 0 and rng.random() < 0.5 else o for o in ops]
         s = dict(g)
         s.update(op="graph_hist", edges=edges, ops=ops, dupv=(rng.random() < 0.03))
         out.append(s)
@@ -175,10 +181,13 @@ def gen_div_arith(rng, N):
                 s["edges2"] = gen.present_edges(rng, E2)
         elif r < 0.4:
             names2 = list(range(n))
-            if rng.random() < 0.5 and n > 1:
-                names2.pop(rng.randrange(n))
+            rr2 = rng.random()
+            if rr2 < 0.35 and n > 1:
+                names2.pop(rng.randrange(n))                 # a proper subset of the left operand's vertices
+            elif rr2 < 0.7:
+                names2 = names2 + [n + 1] + ([n + 2] if rng.random() < 0.3 else [])   # a proper superset
             else:
-                names2[rng.randrange(n)] = n + 1
+                names2[rng.randrange(n)] = n + 1             # overlapping, neither contains the other
             if rng.random() < 0.2:
                 names2 = list(range(n))
                 rng.shuffle(names2)
@@ -1079,4 +1088,71 @@ def gen_bounds_atlas(rng, N, nmin=6, nmax=6):
         E = {(min(perm[a], perm[b]), max(perm[a], perm[b])): 1 for a, b in es}
         out.append({"op": "bounds", "n": n, "edges": gen.present_edges(rng, E, split=False), "names": gen.gen_names(rng, n),
                     "_kind": f"atlas{n}"})
+    return out
+
+
+def gen_config_large(rng, N):
+    """configurations on 10-11 vertices (paths, cycles, trees, sparse graphs) with few chips: the
+    legal sets involve vertices late in name order and sets of more than eight vertices"""
+    out = []
+    for _ in range(N):
+        n = rng.randint(10, 11)
+        kind = rng.choice(["path", "cycle", "tree", "sparse"])
+        E = {}
+        if kind in ("path", "cycle"):
+            for v in range(n - 1):
+                E[(v, v + 1)] = 1
+            if kind == "cycle":
+                E[(0, n - 1)] = 1
+        else:
+            for v in range(1, n):
+                E[(rng.randrange(v), v)] = rng.choice([1, 1, 2])
+            if kind == "sparse":
+                for _k in range(rng.randint(1, 3)):
+                    a, b = sorted(rng.sample(range(n), 2))
+                    E[(a, b)] = E.get((a, b), 0) + 1
+        if rng.random() < 0.5:
+            perm = list(range(n))
+            rng.shuffle(perm)
+            E = {(min(perm[a], perm[b]), max(perm[a], perm[b])): m for (a, b), m in E.items()}
+        q = rng.choice([0, 0, n - 1, rng.randrange(n)])
+        d = [0] * n
+        for _k in range(rng.randint(0, 3)):
+            d[rng.randrange(n)] += 1
+        d[q] = rng.randint(-2, 2)
+        others = [v for v in range(n) if v != q]
+        queries = [["superstable"], ["nonneg"], ["degsum"]]
+        for _k in range(24):
+            size = rng.choice([1, 1, 2, 3, n // 2, n - 2, n - 1])
+            S = rng.sample(others, min(size, len(others)))
+            queries.append(["legal", S])
+        for v in others[-3:]:
+            queries.append(["legal", [v]])
+        queries.append(["legal", others])
+        s = {"n": n, "edges": gen.present_edges(rng, E), "_kind": "large-" + kind, "_genus": gen.genus_of(n, E), "names": gen.gen_names(rng, n),
+             "op": "config", "deg": d, "q": q, "queries": queries, "timeout": 60}
+        out.append(s)
+    return out
+
+
+def gen_bounds_double(rng, N):
+    """two copies of a connected graph on 6-7 vertices joined by one edge (12-14 vertices): the
+    independence number where greedy choices that are right on every small graph go wrong; the
+    gonality search is skipped at this size"""
+    pool = [(n, es) for n in (6, 7) for es in atlas_connected(n)]
+    picks = pool if N >= len(pool) else rng.sample(pool, N)
+    out = []
+    for n, es in picks:
+        E = {}
+        for a, b in es:
+            E[(a, b)] = 1
+            E[(a + n, b + n)] = 1
+        a, b = rng.randrange(n), n + rng.randrange(n)
+        E[(a, b)] = 1
+        m = 2 * n
+        perm = list(range(m))
+        rng.shuffle(perm)
+        E = {(min(perm[x], perm[y]), max(perm[x], perm[y])): 1 for (x, y) in E}
+        out.append({"op": "bounds", "n": m, "edges": gen.present_edges(rng, E, split=False), "names": gen.gen_names(rng, m),
+                    "_kind": f"double{n}", "with_gon": False, "timeout": 60})
     return out
